@@ -24,6 +24,10 @@ SPEC = {
     ],
     "rule": "whole_font on HashMap providers: head (54 bytes, random fields) + maxp (v0.5/v1.0) + 0-8 tables of 0-39 bytes with pool/"
             "random tags, requested tag list shuffled, with duplicates, missing tables, truncated head/maxp (must fail); "
-            "1 in 40 cases subset::subset on a fixture font with random glyph ids, 1 in 40 variations::instance on a "
-            "fixture variable font at random coordinates (judge only). distinct = distinct input lines; histogram = kind x result",
+            "3 in 12 cases subset::subset on a fixture font with random glyph ids (half of them ending in a composite glyph whose "
+            "components precede it), 1 in 12 variations::instance on a fixture variable font at random coordinates, 1 in 12 "
+            "whole_font over the tables a Woff2TableProvider hands out for a synthetic WOFF2 font of the C11 generator (transformed "
+            "glyf/hmtx, collections, glyf tables rebuilt around the 131070-byte short-loca limit) -- all judge only: structural "
+            "validity + cross-table consistency flags (for the synthetic WOFF2 fonts only the head/loca/glyf clauses, the rest of "
+            "those fonts is not consistent to begin with); rarely 4094..4100 tables. distinct = distinct input lines; histogram = kind x result",
 }
